@@ -50,6 +50,7 @@ type Task struct {
 	vc       vclock // happens-before clock (hb.go)
 	inSUT    int    // depth of public SUT calls the harness declared (EnterSUT/LeaveSUT)
 	steps    int
+	prio     int // PCT priority (0: not assigned yet)
 }
 
 // mstate models one sync.Mutex / sync.RWMutex.
@@ -96,7 +97,10 @@ type Sim struct {
 	MaxVirt  time.Duration
 
 	// scheduling policy for search mode (recorded choices are policy independent)
-	SwitchNum, SwitchDen int  // probability of leaving the current task when it is ready
+	SwitchNum, SwitchDen int // probability of leaving the current task when it is ready
+	PCTDepth             int // >0: search mode schedules by random task priorities with PCTDepth-1 priority change points (PCT)
+	pctChange            []int
+	pctNext              int
 	StallPermille        int  // probability (‰) of withholding all ready tasks until the clock moves
 	AllowStall           bool // stalled-task fault enabled for this run
 
@@ -559,7 +563,39 @@ func (s *Sim) Run() RunResult {
 			return a.ID < b.ID
 		})
 		var idx int
-		if len(ready) > 1 {
+		if s.PCTDepth > 0 {
+			// PCT: every task gets a random priority when it first becomes ready; the
+			// highest runs until it blocks; at each change point the task then running drops below all.
+			if s.pctChange == nil {
+				s.pctChange = []int{}
+				for i := 1; i < s.PCTDepth; i++ {
+					s.pctChange = append(s.pctChange, 1+s.tape.Choose(400))
+				}
+				sort.Ints(s.pctChange)
+			}
+			for _, t := range ready {
+				if t.prio == 0 {
+					t.prio = 1000 + s.tape.Choose(100000)
+				}
+			}
+			for s.pctNext < len(s.pctChange) && s.Steps >= s.pctChange[s.pctNext] {
+				if s.running != nil {
+					s.running.prio = 1 + s.pctNext
+				}
+				s.pctNext++
+			}
+		}
+		if len(ready) > 1 && s.PCTDepth > 0 {
+			idx = s.tape.chooseBiased(len(ready), func(r uint64) int {
+				best := 0
+				for i, t := range ready {
+					if t.prio > ready[best].prio || (t.prio == ready[best].prio && t.ID < ready[best].ID) {
+						best = i
+					}
+				}
+				return best
+			})
+		} else if len(ready) > 1 {
 			curReady := ready[0] == s.running
 			idx = s.tape.chooseBiased(len(ready), func(r uint64) int {
 				if curReady {
